@@ -85,17 +85,43 @@ def witness_fn(tier):
     return witness
 
 
-def bundle(repo, tier, seed, laws, classes=None, extra_vcs=(), extra_sanity=(), explanation=""):
+# classes whose interface methods are NOT within the verifier's reach today: a bounded check of the same executable laws on the real
+# code stands in (labelled bounded, never counted as proved)
+BOUNDED = ["Map", "Template"]
+NATIVE_LAWS = {"L1": "L1", "L2": "L2", "L3": "L3", "L4a": "L4a", "L4t": None, "L5": "L5", "L5b": None, "L5d": "L5d", "L6": "L6", "L6v": "L6v", "C05": "C05", "L10": None}
+
+
+def bounded_standin(laws, seed, tier):
+    from harness import lawsearch
+    out = {"classes": BOUNDED, "bounds": "recipes in harness/lawsearch.py RECIPES x %d dictionaries (15 fixed + random over 11 keys, nesting depth 2)",
+           "cases": 0, "witnesses": []}
+    budget = 40 if tier == "quick" else 400
+    out["bounds"] = out["bounds"] % (15 + budget)
+    for cls in BOUNDED:
+        for law in laws:
+            nl = NATIVE_LAWS.get(law)
+            if nl is None:
+                continue
+            w = lawsearch.search(cls, nl, seed, budget)
+            out["cases"] += len(lawsearch.RECIPES.get(cls, [])) * (15 + budget)
+            if w is not None:
+                out["witnesses"].append((f"{cls}:{law}(bounded)", w))
+    return out
+
+
+def bundle(repo, tier, seed, laws, classes=None, extra_vcs=(), extra_sanity=(), explanation="", bounded=True):
     r = run(repo, laws, classes)
     regions = [f"{c}: {fid} {text}" for c, ents in r["regions"].items() for fid, text in ents]
+    bs = bounded_standin(laws, seed, tier) if bounded else None
     return {
+        "bounded": [{k: v for k, v in bs.items() if k != "witnesses"}] if bs else [], "bounded_witnesses": bs["witnesses"] if bs else [],
         "vcs": list(extra_vcs), "sanity": list(extra_sanity), "results": r["results"], "sanity_results": r["sanity"],
         "undecided": r["undecided"], "functions": r["functions"], "hashes": r["hashes"], "group_hashes": r["group_hashes"],
         "syntactic": r["syntactic"], "witness": witness_fn(tier), "level": "proof",
         "trusted_base": ["interface laws assumed for children (A-ext); OptTheory clauses for confectioner (assumed, bounded-validated)",
                          "region complements of recorded findings: " + ("; ".join(regions) or "none")],
         "assumptions": ["classes under contract: " + ", ".join(classes or READY),
-                        "classes NOT yet under contract (out of the verifier's reach today, no claim): Template, Namespace, Dataset, Map, _DatasetClassMeta",
+                        "classes NOT under contract (out of the verifier's reach today): Map, Template (bounded stand-in on the real code, labelled bounded), Namespace, _DatasetClassMeta (no claim)",
                         "private helper classes are verified by inlining only: " + ", ".join(INLINED_ONLY)] + [f"proved outside region: {x}" for x in regions],
         "explanation": explanation,
     }
